@@ -200,11 +200,12 @@ pub fn racechild(opts: &Opts) -> i32 {
                     // (bytes only in the predecessor's extent) meet a full device
                     let kind = if tight { *rng.pick(&[10u64, 70, 80, 80, 80, 80, 80, 80, 90, 90, 90, 90, 97, 99, 99]) } else { rng.below(100) };
                     if kind < 62 {
-                        let len = match if tight { 2 } else { rng.below(4) } {
+                        let len = match if tight { 2 } else { rng.below(5) } {
                             0 => rng.range(40, 300),
                             1 => rng.range(3000, 4000),
                             2 => rng.range(4100, 6000),
-                            _ => rng.range(7000, 8100),
+                            3 => rng.range(7000, 8100),
+                            _ => rng.range(8200, 12200),
                         } as usize;
                         let g = gens[k as usize] + 1;
                         let v = value_of(k, g, len);
@@ -390,6 +391,120 @@ pub fn racechild(opts: &Opts) -> i32 {
     let _ = std::fs::remove_file(&path);
     out.finish();
     println!("{}", summary.iter().map(|(k, v)| format!("{k}={v}")).collect::<Vec<_>>().join(" "));
+    0
+}
+
+/// engine `scan`: range scans hammering keys that are replaced, deleted, expired and re-created at
+/// full speed (memory-only and persistent), small and large values.  Every returned pair must be a
+/// value written to that key; keys come back in strictly ascending order.  Meant to be re-run under
+/// AddressSanitizer (C20) -- the ordered index hands out epoch-managed pointers.
+pub fn run_scan(opts: &Opts) -> i32 {
+    let dir = opts.str("out", "/verif/.build/cases/scan");
+    let seed = opts.u64("seed", 1);
+    let n = opts.u64("n", if opts.thorough() { 40 } else { 4 });
+    let ms = opts.u64("ms", 400);
+    std::fs::create_dir_all(format!("{dir}/dev")).unwrap();
+    let mut out = Out::new(&dir, "s0");
+    let mut rng = Rng::new(seed.wrapping_mul(524_287));
+    let mut pairs_total = 0u64;
+    for case in 0..n {
+        let persistent = case % 4 == 3;
+        let path = format!("{dir}/dev/scan.feox");
+        let _ = std::fs::remove_file(&path);
+        let ttl = rng.chance(1, 2);
+        let mut b = FeoxStore::builder().hash_bits(6).no_memory_limit().enable_ttl(ttl);
+        if persistent {
+            b = b.device_path(path.clone()).file_size(512 * 4096).enable_caching(rng.chance(1, 2));
+        }
+        let store = match b.build() {
+            Ok(s) => Arc::new(s),
+            Err(e) => {
+                out.emit3("note open-failed", "note", &format!("FAIL cannot-open-store {e}"));
+                continue;
+            }
+        };
+        let nkeys = rng.range(2, 6);
+        let big = rng.chance(2, 3);
+        let stop = Arc::new(AtomicBool::new(false));
+        let bad = Arc::new(Mutex::new(None::<String>));
+        let pairs = Arc::new(AtomicU64::new(0));
+        let mut hs = Vec::new();
+        for w in 0..4u64 {
+            let store = store.clone();
+            let stop = stop.clone();
+            let mut rng = rng.fork();
+            hs.push(std::thread::spawn(move || {
+                let mut g = w * 1_000_000;
+                while !stop.load(Ordering::Relaxed) {
+                    let k = rng.below(nkeys);
+                    g += 1;
+                    let len = if big && rng.chance(2, 3) { rng.range(8300, 20_000) } else { rng.range(40, 200) } as usize;
+                    let v = value_of(k, g, len);
+                    match rng.below(10) {
+                        0..=4 => {
+                            let _ = store.insert(&key_of(k), &v);
+                        }
+                        5 | 6 => {
+                            let _ = store.insert_bytes(&key_of(k), bytes::Bytes::from(v));
+                        }
+                        7 => {
+                            let _ = store.delete(&key_of(k));
+                        }
+                        8 if ttl => {
+                            let _ = store.update_ttl(&key_of(k), 3600);
+                        }
+                        _ => {
+                            if let Ok(cur) = store.get(&key_of(k)) {
+                                let _ = store.compare_and_swap(&key_of(k), &cur, &v);
+                            }
+                        }
+                    }
+                }
+            }));
+        }
+        for _ in 0..4 {
+            let store = store.clone();
+            let stop = stop.clone();
+            let bad = bad.clone();
+            let pairs = pairs.clone();
+            hs.push(std::thread::spawn(move || {
+                while !stop.load(Ordering::Relaxed) {
+                    match store.range_query(b"rk", b"rk~", 100) {
+                        Ok(res) => {
+                            pairs.fetch_add(res.len() as u64, Ordering::Relaxed);
+                            let mut last: Option<Vec<u8>> = None;
+                            for (k, v) in res {
+                                if last.as_ref().map_or(false, |l| *l >= k) {
+                                    *bad.lock().unwrap() = Some("range-result-not-strictly-ascending".into());
+                                }
+                                let id = std::str::from_utf8(&k[2..]).ok().and_then(|s| s.parse::<u64>().ok()).unwrap_or(999);
+                                match parse_value(&v) {
+                                    Some((kk, _)) if kk == id => {}
+                                    Some((kk, _)) => *bad.lock().unwrap() = Some(format!("range-returned-another-keys-value key={id} value-of={kk}")),
+                                    None => *bad.lock().unwrap() = Some(format!("range-returned-bytes-never-written key={id} len={}", v.len())),
+                                }
+                                last = Some(k);
+                            }
+                        }
+                        Err(e) => *bad.lock().unwrap() = Some(format!("range-query-error {e}")),
+                    }
+                }
+            }));
+        }
+        std::thread::sleep(Duration::from_millis(ms));
+        stop.store(true, Ordering::Relaxed);
+        for h in hs {
+            let _ = h.join();
+        }
+        let verdict = bad.lock().unwrap().clone().map_or("ok".to_string(), |b| format!("FAIL {b}"));
+        pairs_total += pairs.load(Ordering::Relaxed);
+        out.emit3(&format!("note scan case={case} persistent={} ttl={} keys={nkeys} big={} pairs={}", persistent as u8, ttl as u8, big as u8, pairs.load(Ordering::Relaxed)), "note", &verdict);
+        drop(store);
+        let _ = std::fs::remove_file(&path);
+    }
+    std::fs::write(format!("{dir}/stats.json"), format!("{{\"pairs_returned_by_scans\": {pairs_total}}}")).unwrap();
+    let total = out.finish();
+    println!("scan: {total} cases, {pairs_total} pairs");
     0
 }
 
